@@ -455,7 +455,20 @@ def shard_write(ctx: Ctx, shard: int, nshards: int, per_shard: int) -> Stats:
                 st.fail(r[0], {"kind": "write", "mode": mode, "value": enc(v)}, r[1])
 
         drive(strat, one, ctx.shard_seed(shard, 2), per_shard, chunk=4000)
+        # text that looks like another kind of value to a tool's argument handling: JSON containers and scalars, OCTAVE
+        # brackets, operation objects, chained operators — placed through every write mode (fixed list, sharded)
+        k = 0
+        for v in LOOKALIKE_TEXTS:
+            for mode in ("changes", "changes_existing", "changes_meta", "mutations"):
+                k += 1
+                if k % nshards == shard:
+                    one((mode, v))
     return st
+
+
+LOOKALIKE_TEXTS = ["[]", "[1, 2, 3]", '["a"]', "{}", '{"retries": 3}', '{"$op": "DELETE"}', "null", "true", "42", "4.0", '"quoted"', "[a,b]", "[k::v]", "{a: 1}",
+                   " [] ", "[1,\n2]", "speed⇌cost⇌quality", "a⇌b⇌c⇌d", "a→b→c", "x vs y vs z", "NaN", "Infinity", "-0", "0x10", "1e3", "1_000", "$op", "DELETE",
+                   "META.X", "§1", "===END===", "---", "```", "K::v"]
 
 
 # ---------------------------------------------------------------- module interface
